@@ -71,7 +71,14 @@ def hygiene(extra_files=()):
     """forbidden-token scan over the whole development (comments stripped). Variable/Hypothesis/
     Context are only accepted between Section ... End."""
     bad = []
-    for rel in list(coq_sources()) + list(extra_files):
+    # compiler flags that switch checks off (the build takes its flags from _CoqProject only)
+    proj = open(os.path.join(COQ, "_CoqProject")).read()
+    for flag in ("-type-in-type", "-impredicative-set", "-noinit", "-vos", "-vok", "-bypass", "-allow-sprop"):
+        if flag in proj:
+            bad.append(f"_CoqProject: {flag}")
+    gen = sorted("gen/" + f for f in os.listdir(GEN) if f.endswith(".v") and f.startswith("Gen")) \
+        if os.path.isdir(GEN) else []
+    for rel in list(coq_sources()) + gen + list(extra_files):
         src = strip_comments(open(os.path.join(COQ, rel)).read())
         for m in FORBIDDEN.finditer(src):
             bad.append(f"{rel}: {m.group(0)}")
@@ -385,6 +392,7 @@ class Check:
             samples=self.samples or ["(no case sampled)"], counts=self.counts)
         if extra_cov:
             cov.update(extra_cov)
+        cov["judged_tree"] = repo_identity()
         ev = dict(property_id=self.prop, tier=self.tier, seed=self.seed, level=self.level,
                   coverage=cov, assumptions=self.assumptions,
                   wall_s=round(time.time() - self.t0, 2), violations=len(self.violations),
@@ -392,6 +400,19 @@ class Check:
         with open(os.path.join(EVID, self.prop + ".json"), "w") as f:
             json.dump(ev, f, indent=1, default=str)
         return 1 if self.violations else 0
+
+
+def repo_identity():
+    """which source tree this run judged: HEAD of the repo working tree and a digest of its uncommitted
+    changes (taken at the end of the run; a tree edited while a check runs gives unreliable results)"""
+    try:
+        head = subprocess.run(["git", "-C", REPO, "rev-parse", "HEAD"], capture_output=True, text=True).stdout.strip()
+        diff = subprocess.run(["git", "-C", REPO, "status", "--porcelain"], capture_output=True, text=True).stdout
+        d = subprocess.run(["git", "-C", REPO, "diff", "HEAD"], capture_output=True).stdout
+        return dict(repo=REPO, head=head, dirty=bool(diff.strip()),
+                    diff_sha1=hashlib.sha1(d).hexdigest() if diff.strip() else None)
+    except Exception as ex:   # never let bookkeeping break a check
+        return dict(repo=REPO, error=str(ex))
 
 
 def gate_or_violation(chk, gate):
